@@ -190,6 +190,11 @@ func (g *Gen) fill(v reflect.Value, depth int, name string) {
 		}
 		v.Set(m)
 	case reflect.Struct:
+		// a nested struct left entirely at its zero value (present but empty: `"limits":{}`) is a shape of its own:
+		// filling every field at random practically never produces it
+		if depth > 0 && t.NumField() > 1 && g.r.Chance(8) {
+			return
+		}
 		for i := 0; i < t.NumField(); i++ {
 			if !t.Field(i).IsExported() && !t.Field(i).Anonymous {
 				continue
